@@ -29,6 +29,7 @@ fn campaigns(tier: Tier) -> Vec<Campaign> {
         blanks: vec![0],
         pipes: PIPES.to_vec(),
         filter: None,
+        choice_gen: None,
     };
     let small_leaves = || vec![Tree::lit(1), Tree::lit(2), Tree::var("x")];
     let mut v = vec![];
